@@ -11,9 +11,10 @@ use std::collections::BTreeMap;
 thread_local! {
     static SIGN_LOG: RefCell<Vec<(Vec<u8>, Option<Vec<u8>>)>> = RefCell::new(Vec::new());
     static VERIFY_LOG: RefCell<Vec<(Vec<u8>, Vec<u8>, bool)>> = RefCell::new(Vec::new());
-    static FAIL: Cell<bool> = Cell::new(false);
+    static FAIL: Cell<u8> = Cell::new(0);
 }
-pub fn set_fail(b: bool) {
+/// 0 = honest, 1 = the next signing calls return an error, 2 = they return Ok with a signature that does not verify
+pub fn set_fail(b: u8) {
     FAIL.with(|f| f.set(b));
 }
 pub fn take_sign_log() -> Vec<(Vec<u8>, Option<Vec<u8>>)> {
@@ -82,11 +83,19 @@ impl<K: Kt> Kt for Spy<K> {
 impl<K: EnrKey> EnrKey for Spy<K> {
     type PublicKey = SpyPub<K::PublicKey>;
     fn sign_v4(&self, msg: &[u8]) -> Result<Vec<u8>, SigningError> {
-        if FAIL.with(Cell::get) {
+        if FAIL.with(Cell::get) == 1 {
             log_sign(msg, None);
             return Err(SigningError::verif_new("injected signing fault"));
         }
-        let r = self.0.sign_v4(msg);
+        let mut r = self.0.sign_v4(msg);
+        if FAIL.with(Cell::get) == 2 {
+            // a signer that fails silently: Ok with one bit of the signature flipped
+            if let Ok(s) = r.as_mut() {
+                if let Some(last) = s.last_mut() {
+                    *last ^= 1;
+                }
+            }
+        }
         log_sign(msg, r.as_ref().ok().map(Vec::as_slice));
         r
     }
@@ -158,7 +167,7 @@ impl Kt for ToyKey {
 impl EnrKey for ToyKey {
     type PublicKey = ToyPub;
     fn sign_v4(&self, msg: &[u8]) -> Result<Vec<u8>, SigningError> {
-        if FAIL.with(Cell::get) {
+        if FAIL.with(Cell::get) == 1 {
             log_sign(msg, None);
             return Err(SigningError::verif_new("injected signing fault"));
         }
@@ -167,6 +176,9 @@ impl EnrKey for ToyKey {
         let mut s = self.pk.to_vec();
         s.extend_from_slice(&toy_tag(&self.pk, msg));
         s.extend(std::iter::repeat(0xAB).take(pad));
+        if FAIL.with(Cell::get) == 2 {
+            s[15] ^= 1;
+        }
         log_sign(msg, Some(&s));
         Ok(s)
     }
